@@ -22,6 +22,7 @@ from vf.symx import Engine, SBool
 PID = "C14"
 CORE = "dclab.rtdc_dataset.core"
 FB = "dclab.rtdc_dataset.feat_basin"
+HB = "dclab.rtdc_dataset.fmt_hdf5.basin"
 FUNCTIONS = [(CORE, "RTDCBase.basins_retrieve"), (CORE, "RTDCBase.basins"),
              (CORE, "RTDCBase.features_basin"),
              (CORE, "RTDCBase.ignore_basins"),
@@ -117,7 +118,8 @@ def build(world):
             self.s = s.s if isinstance(s, UPath) else str(s)
 
         def exists(self):
-            return self.s in world["files"]
+            return self.s in world["files"] and \
+                world["files"][self.s]["avail"]
 
         @property
         def parent(self):
@@ -182,6 +184,13 @@ def build(world):
             pass
 
     Basin = fbns["Basin"]
+    # the REAL availability check of file basins (HDF5Basin.is_available),
+    # with module-level state private to this world
+    hbns = shadow(HB, pathlib=pathlib_shim)
+    for k_, v_ in list(hbns.items()):
+        if isinstance(v_, (set, dict, list)) and not k_.startswith("__"):
+            hbns[k_] = type(v_)()
+    real_is_available = hbns["HDF5Basin"].__dict__["is_available"]
 
     class UBasinFile(Basin):
         basin_format = "hdf5"
@@ -193,14 +202,13 @@ def build(world):
                 world["isolation"].append(
                     "file-type basin object created by the %s dataset %s" % (
                         creator.spec["fmt"], creator.name))
+            self._available_verified = None
             Basin.__init__(self, *a, **k)
 
         def _load_dataset(self, location, **kw):
             return UDS(str(location), **kw)
 
-        def is_available(self):
-            n = str(self.location)
-            return n in world["files"] and world["files"][n]["avail"]
+        is_available = real_is_available
 
     class UBasinHTTP(Basin):
         basin_format = "http"
@@ -360,8 +368,45 @@ def run_multi(eng, p):
     return "ok"
 
 
+def run_vanish(eng, p):
+    """history within one session: the basin file is present (or not) when
+    the referrer is opened first, present (or not) when it is opened again;
+    the second dataset offers the basin's features iff the file is reachable
+    THEN"""
+    world = {"files": {}, "openings": 0, "stack": [], "isolation": []}
+    UDS = build(world)
+    mp = "same" if p["mapping"] == "same" else "basinmap0"
+    bas = [{"name": "b", "key": "key01", "mapping": mp, "type": "file",
+            "format": "hdf5", "paths": ["f1"]}]
+    first = bool(eng.bool("present_first"))
+    then = bool(eng.bool("present_then"))
+    for k in range(2):
+        world["files"]["f%d" % k] = dict(
+            fmt="hdf5", rid=REF_ID, basins=bas if k == 0 else [],
+            avail=True if k == 0 else first, k=k,
+            feats=["deform", UNIQUE[k]] if k else ["deform"])
+    with quiet():
+        ds = UDS("f0")
+        fb1 = list(ds.features_basin)
+        world["files"]["f1"]["avail"] = then
+        ds2 = UDS("f0")
+        fb2 = list(ds2.features_basin)
+    eng.reach()
+    eng.prove(z3.BoolVal((UNIQUE[1] in fb1) == first),
+              "basin features offered iff the basin file is reachable")
+    eng.prove(z3.BoolVal((UNIQUE[1] in fb2) == then),
+              "re-opened referrer: basin features offered iff the basin file "
+              "is reachable at that time",
+              info={"present at first opening": first,
+                    "present at second opening": then, "offered": fb2})
+    return "ok"
+
+
 def run_case(name, params):
     eng = Engine(timeout_ms=10000, max_paths=400000)
+    if params.get("vanish"):
+        eng.explore(lambda e: run_vanish(e, params))
+        return eng.stats()
     if params.get("multi"):
         eng.explore(lambda e: run_multi(e, params))
     else:
@@ -390,6 +435,11 @@ def cases(tier, seed):
                         rid0, rids, mapping, fmt0), dict(
                         nfiles=nf, edges=edges, rid0=rid0, rids=rids,
                         mapping=mapping, fmt0=fmt0)))
+    for mapping in ("same", "mapped"):
+        out.append(("basin file vanishes / appears between two openings %s"
+                    % mapping, dict(vanish=True, mapping=mapping, nfiles=2,
+                                    edges=[], rid0=REF_ID, rids=[],
+                                    fmt0="hdf5")))
     for mapping in ("same", "mapped"):
         out.append(("multi-location basin %s" % mapping,
                     dict(multi=True, mapping=mapping, nfiles=3, edges=[],
@@ -429,6 +479,8 @@ def replay(case, params, v):
     what = str(v.get("what", ""))
     if p.get("mislabel"):
         return _replay_mislabel(p)
+    if p.get("vanish"):
+        return _replay_vanish(p, vals)
     if p.get("multi"):
         return _replay_multi(p, vals)
     if "isolation" in what or p["fmt0"] != "hdf5" or \
@@ -584,6 +636,77 @@ def _replay_multi(p, vals):
                 "detail": "resolved to the first matching location"}
     return {"reproduced": True,
             "key": "basins_retrieve|multi-location|wrong-resolution",
+            "detail": fails[0]}
+
+
+def _replay_vanish(p, vals):
+    import os
+    import tempfile
+    import dclab
+    import dclab.rtdc_dataset.writer as W
+    first = bool(vals.get("present_first", False))
+    then = bool(vals.get("present_then", False))
+    old_version = W.version
+    W.version = "0.62.7"
+    fails = []
+    try:
+        with tempfile.TemporaryDirectory(prefix="verif_c14_") as td, quiet():
+            paths = [os.path.join(td, "f%d.rtdc" % k) for k in range(2)]
+
+            def write(k):
+                with W.RTDCWriter(paths[k], mode="reset") as hw:
+                    hw.store_feature("deform", np.linspace(.01, .02, 3))
+                    if k:
+                        hw.store_feature(UNIQUE[k], np.arange(3) + 100. * k)
+                    hw.store_metadata({
+                        "setup": {"channel width": 20.0,
+                                  "chip region": "channel",
+                                  "flow rate": 0.04, "medium": "other"},
+                        "imaging": {"pixel size": 0.34},
+                        "experiment": {"run identifier": REF_ID}})
+                    if k == 0:
+                        kw = {}
+                        if p["mapping"] != "same":
+                            kw = dict(basin_map=np.array([0, 2, 1]))
+                        hw.store_basin("b", "file", "hdf5", [paths[1]],
+                                       verify=False, **kw)
+            write(0)
+            if first:
+                write(1)
+            res = []
+            for present in (first, then):
+                if present and not os.path.exists(paths[1]):
+                    write(1)
+                if not present and os.path.exists(paths[1]):
+                    os.remove(paths[1])
+                try:
+                    with dclab.new_dataset(paths[0]) as ds:
+                        fbas = list(ds.features_basin)
+                        if UNIQUE[1] in fbas:
+                            ds[UNIQUE[1]][:]
+                except Exception as e:
+                    fails.append("basin file %s at the second opening (%s at "
+                                 "the first): %s: %s" % (
+                                     "present" if then else "absent",
+                                     "present" if first else "absent",
+                                     type(e).__name__, e))
+                    break
+                res.append(UNIQUE[1] in fbas)
+                if (UNIQUE[1] in fbas) != present:
+                    fails.append(
+                        "basin file %s when the referrer is opened (history: "
+                        "present at first opening=%s, at second opening=%s) "
+                        "but its features are %soffered" % (
+                            "present" if present else "absent", first, then,
+                            "" if UNIQUE[1] in fbas else "not "))
+                    break
+    finally:
+        W.version = old_version
+    if not fails:
+        return {"reproduced": False, "key": "not-reproduced",
+                "detail": "availability follows the file system"}
+    return {"reproduced": True,
+            "key": "HDF5Basin.is_available|stale-availability",
             "detail": fails[0]}
 
 
